@@ -20,6 +20,7 @@ VERUS = {
 }
 
 _ENM = 'crates/cairo-lang-sierra-to-casm/src/invocations/enm.rs'
+_CT = 'crates/cairo-lang-sierra/src/extensions/modules/const_type.rs'
 KANI = {
     'variant_selector': dict(
         crate='cairo-lang-sierra-to-casm',
@@ -33,5 +34,16 @@ KANI = {
         functions=[(_ENM, None, 'get_variant_selector')],
         trusted=['PRE index < n_variants of get_variant_selector is established upstream (validate_const_enum_data; EnumInitLibfunc::specialize '
                  'range check); c14_variant_selector_pre_needed shows inputs outside it do panic'],
+    ),
+    'const_enum_data': dict(
+        crate='cairo-lang-sierra',
+        host=_CT,
+        harness='kani/cairo-lang-sierra/const_enum_data.rs',
+        props={'C14'},
+        functions=[(_CT, None, 'validate_const_enum_data'), (_CT, None, 'extract_const_info'),
+                   ('crates/cairo-lang-sierra/src/extensions/mod.rs', None, 'extract_type_generic_args')],
+        trusted=['validate_const_enum_data: BOUNDED - enum with 0..=3 variants (one harness per count), mock TypeSpecializationContext that knows one '
+                 'type; selector = BigInt::from(u64) over the full u64 range plus the concrete -1; type ids full u64; num-bigint, SmolStr and '
+                 'derivative equality run as real code'],
     ),
 }
